@@ -2,6 +2,7 @@
    the extracted datatype, no Extract Constant. *)
 From Coq Require Import ZArith List.
 From Coq Require Import ExtrOcamlBasic.
-From VV Require Import Base.F64 Base.Values Interp.Strategy Cxx.CxxMini Gen.Prims Prims.IntSpec.
+From VV Require Import Base.F64 Base.Values Interp.Strategy Cxx.CxxMini Gen.Prims Mep.Genome Prims.IntSpec Prims.RealDefs.
 Extraction "prims_model.ml" prims_all strategy_of run_stub fetched args_stub
-  F64.of_bits F64.to_bits int_oracle clamp is32b.
+  F64.of_bits F64.to_bits int_oracle clamp is32b
+  RealDefs.run_tree RealDefs.c13_table RealDefs.sig_okb RealDefs.foub.
